@@ -218,6 +218,35 @@ def cd2(ctx):
                           'the end-of-block padding is not written exactly when fewer than HEADER_LEN bytes remain (inverted or missing condition): the reader skips the tail under that condition and would lose sync')
 
 
+@rule('CD2b', ['C07'], floor=1, template='guard-polarity')
+def cd2b(ctx):
+    """`remaining - HEADER_LEN` is computed only on the `remaining >= HEADER_LEN` edge."""
+    n = 0
+    for b in ctx.f.bodies.values():
+        if b.generic_dup() or not b.path.startswith('frame::writer::FrameWriter'):
+            continue
+        subs = []
+        for bi, blk in enumerate(b.blocks):
+            if not b.live[bi]:
+                continue
+            for si, st in enumerate(blk['stmts']):
+                if st['k'] == 'assign' and st['rv']['k'] == 'binop' and st['rv']['op'].startswith('Sub') and (op_const_named(st['rv']['b']) or '').endswith('frame::header::HEADER_LEN') and not op_const_named(st['rv']['a']):
+                    subs.append(b.pstart[bi] + si)
+        comps = const_comparisons(ctx, b, 'frame::header::HEADER_LEN')
+        for sp in subs:
+            n += 1
+            ok = False
+            for c in comps:
+                for (bj, te, fe) in switch_on_result(b, c):
+                    ge = te if c['op'] == 'Ge' else fe if c['op'] == 'Lt' else None
+                    if ge is not None and b.edge_dominates(ge, sp):
+                        ok = True
+            ctx.check(ok, '%s:sub-on-ge-edge' % b.path, where(b, sp), 'remaining - HEADER_LEN dominated by `remaining >= HEADER_LEN`',
+                      '`remaining - HEADER_LEN` can be evaluated when fewer than HEADER_LEN bytes remain (underflow panic / wrong frame size)')
+    if n == 0:
+        ctx.missing('sub', 'no `x - HEADER_LEN` in the frame writer')
+
+
 @rule('CD3', ['C07', 'C01', 'C18'], floor=3, template='sibling-agreement')
 def cd3(ctx):
     """Integer fields are encoded and decoded with the same types, endianness, order and offsets."""
@@ -773,9 +802,161 @@ def cd8(ctx):
         th = set()
         for h in hdr:
             th |= fl.forward(set(fl.call_result_nodes(h)))
-        okp = any(len(w.args) > 1 and fl.op_tainted(w.args[1], t) for w in ws)
+        from rules_bytes import ref_root
+        copies = [c for c in b.calls if c.name.endswith('copy_from_slice') and len(c.args) > 1 and ref_root(b, op_local(c.args[1])) == ('param', pay[0])]
+        okp = any(any(b.dominates(c.point, w.point) for w in ws) for c in copies)
         okh = bool(hdr) and any(len(w.args) > 1 and fl.op_tainted(w.args[1], th) for w in ws)
         ctx.check(okp and okh, '%s:frame-content' % b.path, b.span, 'the slice handed to the block writer carries the header and the payload',
                   'the frame handed to the block writer does not contain the %s' % ('payload' if not okp else 'header'))
+    # fixed-layout encoders (&self -> &mut [u8]): every field of the struct is written
+    for b in ctx.f.bodies.values():
+        if b.generic_dup() or not b.path.startswith('frame::header::') or not int_codec_calls(b, 'to') or b.arg_count < 2 or not b.local_ty(2).startswith('&mut [u8]'):
+            continue
+        adt = re.sub(r'^&(mut )?', '', b.local_ty(1))
+        a = ctx.f.adts.get(adt)
+        if not a:
+            continue
+        fl = flow_of(b)
+        # sinks: stores through dest and copy_from_slice on slices of dest
+        sink_nodes = set()
+        for (p, pl, rv) in b.stores:
+            if pl['l'] == 2 and rv['k'] == 'use':
+                sink_nodes |= fl.backward(set(fl.op_nodes(rv['op'])), skip_mem=False)
+        for c in b.calls:
+            if c.name.endswith('copy_from_slice') and len(c.args) > 1:
+                sink_nodes |= fl.backward(set(fl.op_nodes(c.args[1])), skip_mem=False)
+        for f in a['variants'][0]['fields']:
+            n += 1
+            loc = ('m', '%s.%s' % (adt.split('::')[-1], f['name']))
+            ctx.check(loc in sink_nodes, '%s:field:%s' % (b.path, f['name']), b.span, 'field `%s` is written to the output' % f['name'],
+                      'field `%s` of %s is never written by its encoder' % (f['name'], adt.split('::')[-1]))
     if n < 3:
         ctx.missing('encoders', 'expected the record / batch encoders and the frame writer')
+
+
+@rule('CD9', ['C07', 'C01'], floor=2, template='predicate-agreement')
+def cd9(ctx):
+    """Size predicates are strict on the right side: a frame may end exactly at the block end, a write may
+    fill a file exactly (the reader relies on both)."""
+    n = 0
+    # reader: reject iff cursor + len > BLOCK_NUM_BYTES
+    for b in ctx.f.bodies.values():
+        if b.generic_dup() or not b.path.startswith('frame::reader::FrameReader'):
+            continue
+        for c in const_comparisons(ctx, b, 'BLOCK_NUM_BYTES'):
+            lv = expr_leaves(b, c['x'])
+            has_len = any(x[0] == 'call' and x[1].node is not None and ctx.f.bodies[x[1].node].path.startswith('frame::header::Header::') for x in lv)
+            if not has_len:
+                continue
+            n += 1
+            rej = None
+            for (bj, te, fe) in switch_on_result(b, c):
+                rej_edge = te if c['op'] in ('Gt', 'Ge') else fe
+                r = b.reach([rej_edge[1]])
+                errs = [e for e in b.exits() if e['point'] in r]
+                rej = bool(errs) and all(e['kind'] == 'err' for e in errs)
+            ctx.check(c['op'] in ('Gt', 'Le') and rej is not False, '%s:frame-fits' % b.path, where(b, c['point']), 'frame rejected iff cursor + len > BLOCK_NUM_BYTES (a frame may end exactly at the block end)',
+                      'the frame-fits test is `cursor + len %s BLOCK_NUM_BYTES`: frames ending exactly at the block end (which the writer produces) would be rejected as corruption' % {'Ge': '>=', 'Lt': '<', 'Eq': '==', 'Ne': '!='}.get(c['op'], c['op']))
+    # writer: roll over iff offset + len > FILE_NUM_BYTES
+    for b in ctx.f.bodies.values():
+        if b.generic_dup() or not (b.path.startswith('<rolling::directory::RollingWriter') or b.path.startswith('rolling::directory::RollingWriter')):
+            continue
+        for c in const_comparisons(ctx, b, 'FILE_NUM_BYTES'):
+            lv = expr_leaves(b, c['x'])
+            if not any(x[0] == 'place' and mem_loc(x[2]) == 'RollingWriter.offset' for x in lv):
+                continue
+            n += 1
+            ctx.check(c['op'] in ('Gt', 'Le'), '%s:file-full' % b.path, where(b, c['point']), 'roll-over iff offset + len > FILE_NUM_BYTES (a write may fill the file exactly)',
+                      'the roll-over test is `offset + len %s FILE_NUM_BYTES`: a write that would exactly fill the file rolls early and leaves a zero tail, which the reader takes for the end of the log' % {'Ge': '>=', 'Lt': '<'}.get(c['op'], c['op']))
+    if n < 2:
+        ctx.missing('predicates', 'expected the frame-fits test of the reader and the file-full test of the writer')
+
+
+@rule('WR1', ['C07', 'C12'], floor=3, template='loop-progress')
+def wr1(ctx):
+    """The entry writer's frame loop makes progress: the remaining payload is re-sliced past the bytes just
+    framed, the first-frame flag is cleared, and the loop ends exactly when nothing remains."""
+    n = 0
+    for b in ctx.f.bodies.values():
+        if b.generic_dup() or not b.path.startswith('recordlog::writer::RecordWriter'):
+            continue
+        wf = [cs for cs in b.calls if cs.node is not None and ctx.E.call_may(cs, 'WRITE') and b.loops() and any(cs.block in L['blocks'] for L in b.loops())]
+        if not wf:
+            continue
+        L = [L for L in b.loops() if wf[0].block in L['blocks']][0]
+        hdr = b.pstart[L['header']]
+        inside = set()
+        for x in L['blocks']:
+            for p in range(b.pstart[x], b.pterm[x] + 1):
+                inside.add(p)
+        outside = [p for p in range(len(b.points)) if p not in inside]
+        w = wf[0]
+        # (i) the slice handed to write_frame is a prefix [..k] of the remaining payload and the remaining payload is re-assigned to [k..]
+        fl = flow_of(b)
+        pay_local = None
+        k_nodes = set()
+        root = None
+        for a in w.args:
+            al = op_local(a)
+            if al is not None and b.local_ty(al) == '&[u8]':
+                from rules_bytes import ref_root
+                root = ref_root(b, al)
+        resliced = []
+        if root and root[0] == 'call' and re.search(r'Index<std::ops::RangeTo<usize>> for \[u8\]', root[1].name):
+            base = ref_root(b, op_local(root[1].args[0]))
+            rl = op_local(root[1].args[1])
+            for o in (b.trace_local(rl) if rl is not None else []):
+                if o[0] == 'rv' and o[2]['k'] == 'agg':
+                    k_nodes |= set(fl.op_nodes(o[2]['ops'][0]))
+            # find assignments  payload = &payload[k..]
+            for c in b.calls:
+                if c.block in L['blocks'] and re.search(r'Index<std::ops::RangeFrom<usize>> for \[u8\]', c.name):
+                    rl2 = op_local(c.args[1])
+                    same_k = False
+                    for o in (b.trace_local(rl2) if rl2 is not None else []):
+                        if o[0] == 'rv' and o[2]['k'] == 'agg':
+                            kb = fl.backward(set(fl.op_nodes(o[2]['ops'][0])), skip_mem=True)
+                            kb2 = fl.backward(k_nodes, skip_mem=True)
+                            same_k = bool((kb & kb2) - {('l', 1)})
+                    # the result flows back into the local the prefix was taken from
+                    t = fl.forward(set(fl.call_result_nodes(c)), skip_mem=True)
+                    base_l = op_local(root[1].args[0])
+                    tr = b.trace_local(base_l) if base_l is not None else []
+                    loop_var = None
+                    for o in tr:
+                        if o[0] == 'rv' and o[2]['k'] == 'ref' and not [e for e in o[2]['place']['p'] if e['k'] != 'deref']:
+                            loop_var = o[2]['place']['l']
+                    if same_k and loop_var is not None and ('l', loop_var) in t:
+                        resliced.append(c.point)
+        n += 1
+        ok_i = bool(resliced) and hdr not in b.reach_after(hdr, avoid=set(resliced) | set(outside))
+        ctx.check(ok_i, '%s:payload-advances' % b.path, where(b, w.point), 'every round re-slices the remaining payload past the frame just written',
+                  'the frame loop can go round without shrinking the remaining payload (same bytes framed again / endless entry)')
+        # (ii) first-frame flag cleared on every round
+        ft = [c for c in b.calls if c.block in L['blocks'] and c.node is not None and ctx.f.bodies[c.node].ret_ty == 'frame::header::FrameType' and ctx.f.bodies[c.node].arg_count == 2]
+        ok_ii = False
+        if ft:
+            fl_local = None
+            for o in b.trace_local(op_local(ft[0].args[0])) if op_local(ft[0].args[0]) is not None else []:
+                pass
+            a0 = op_local(ft[0].args[0])
+            src = b.single_def(a0)
+            first_var = op_local(src[2]['rv']['op']) if src and src[1] == 'assign' and src[2]['rv']['k'] == 'use' else a0
+            clears = [p for (p, kind, data) in b.defs.get(first_var, []) if kind == 'assign' and data['rv']['k'] == 'use' and op_const_bits(data['rv']['op']) == 0 and p in inside]
+            ok_ii = bool(clears) and hdr not in b.reach_after(hdr, avoid=set(clears) | set(outside))
+        n += 1
+        ctx.check(ok_ii, '%s:first-flag-cleared' % b.path, where(b, w.point), 'the is-first flag is set to false on every path round the loop',
+                  'the first-frame flag is not cleared on every round: later frames of an entry would be typed First/Full and start a new entry at the reader')
+        # (iii) loop exit on the `nothing remains` edge, and is_last passed to frame_type is that same test
+        empties = [(te, fe, cs) for (bi, c, te, fe, cs) in b.switches_on_call(lambda c: c.name.endswith('<impl [u8]>::is_empty')) if cs.block in L['blocks']]
+        ok_iii = False
+        for (te, fe, cs) in empties:
+            te_out = b.points[te[1]][0] not in L['blocks'] or hdr not in b.reach([te[1]], avoid=outside)
+            fe_in = hdr in b.reach([fe[1]], avoid=outside)
+            if te_out and fe_in:
+                ok_iii = True
+        n += 1
+        ctx.check(ok_iii, '%s:ends-when-empty' % b.path, where(b, w.point), 'the loop is left exactly on the edge where no payload remains',
+                  'the frame loop does not end exactly when the remaining payload is empty (inverted / missing test): entries would be cut short or never end')
+    if n == 0:
+        ctx.missing('frame-loop', 'no frame loop found in the record writer')
